@@ -12,8 +12,10 @@ package queries
 //@   property C38
 //@   ensures err == nil && operator != "$in" ==> is(value, string)
 //@   ensures err == nil && operator == "$in" ==> is(value, []any)
+//@   ensures err == nil && operator == "$in" ==> forall j int :: {value.([]any)[j]} 0 <= j && j < len(value.([]any)) ==> is(value.([]any)[j], string)
 //@   loop 1:
-//@     invariant true
+//@     index i
+//@     invariant forall j int :: {values[j]} 0 <= j && j < i ==> is(values[j], string)
 
 //@ func (t TypeBoolean) ValidateValue(operator string, value any) (err error)
 //@   property C38
